@@ -677,6 +677,8 @@ class Sim:
         if cls == "Log" and cs.flip("base", 30):
             kw["base"] = cs.choice("basev", [10.0, 2.0, 3.0])
         via = cs.flip("get_transform", 50)
+        if via and cs.flip("param_keywords", 45):
+            return self.tnew_with_param_keywords(cls, kw)
         self.log.ev("tnew", cls, kw, via)
         if via:
             t = transform.get_transform(cls, **kw)
@@ -687,6 +689,52 @@ class Sim:
         self.trs.append((t, self.fresh_model(t, "params", cls, kw),
                          self.fresh_model(t, "constants", cls, kw),
                          self.nid, cls))
+
+    def tnew_with_param_keywords(self, cls, kw):
+        """get_transform(name, <constructor args>, <parameter / constant
+        values>): the documented way of building a transform with parameter
+        values; each value is an assignment by key on the fresh vectors."""
+        from hydrodiy.stat import transform
+        cs = self.cs
+        ref = getattr(transform, cls)(**kw)
+        pm = self.fresh_model(ref, "params", cls, kw)
+        cm = self.fresh_model(ref, "constants", cls, kw)
+        slots = [(pm, i) for i in range(pm.n)] + [(cm, i) for i in range(cm.n)]
+        if not slots:
+            return
+        pkw = {}
+        plan = []
+        for j in range(cs.between("npkw", 1, min(2, len(slots)))):
+            m, i = slots[cs.draw(f"slot{j}", len(slots))]
+            if m.names[i] in pkw or m.names[i] in kw:
+                continue
+            x, c = gen_value(cs, m.mins[i], m.maxs[i], 1, f"pk{j}")
+            pkw[m.names[i]] = x
+            plan.append((m, i, x))
+        self.log.ev("tnew", cls, kw, "param_keywords", pkw)
+        self.ctx.hit("probe.get_transform_with_parameter_keywords")
+        must_reject = any(x != x and not m.accept_nan for m, i, x in plan)
+        try:
+            with warnings.catch_warnings():
+                warnings.simplefilter("ignore")
+                t = transform.get_transform(cls, **kw, **pkw)
+        except Exception as e:
+            if must_reject:
+                return
+            raise Violation("valid_assignment_rejected",
+                            f"get_transform({cls!r}, **{kw}, **{pkw}) raised "
+                            f"{e!r}", "tnew")
+        if must_reject:
+            raise Violation("nan_stored", f"get_transform({cls!r}, **{kw}, "
+                            f"**{pkw}) accepted NaN; params "
+                            f"{list(map(float, t.params.values))} constants "
+                            f"{list(map(float, t.constants.values))}", "tnew")
+        for m, i, x in plan:
+            m.assign_one(i, x)
+        self.nid += 1
+        self.tkw[self.nid] = dict(kw)
+        self.trs.append((t, pm, cm, self.nid, cls))
+        self.changed = True
 
     def fresh_model(self, t, which, cls, kw):
         """Model of a freshly constructed transform's vector.  The first
